@@ -186,6 +186,7 @@ Record aobs := {
   oa_route : N;                   (* the route the request addresses: 1 start 2 sign_in 3 sign_out 4 callback 5 back channel, 0 other *)
   oa_pres : option F.session;     (* the presented session cookie of this provider, as opened *)
   oa_uri : str;                   (* the redirect_uri the request presented *)
+  oa_creds : bool;                (* the request presented the client id AND secret the authenticator is configured with *)
   oa_revoked : option Z           (* instant the presented cookie's grant was revoked, if it was *)
 }.
 
@@ -379,8 +380,8 @@ Definition skip_path (host path : str) : bool :=
 
 Definition in_domain_uri (u : str) : bool := Corr_C07.rfc_in_domain u (A.d_proxy_domains d_a).
 
-Definition creds_agree : bool :=
-  str_eqb (sd_pid sd) (A.d_client_id d_a) && str_eqb (sd_psecret sd) (A.d_client_secret d_a).
+(* the proxy signs and redeems with the secret the authenticator checks *)
+Definition creds_agree : bool := str_eqb (sd_psecret sd) (A.d_client_secret d_a).
 
 Definition slack : Z := 3.
 
@@ -463,7 +464,7 @@ Definition auth_ok (now : Z) (o : aobs) : bool :=
                           end)
                      end) (oa_sess o) &&
   (* a token document only on a back-channel route *)
-  match oa_json o with Some _ => N.eqb (oa_route o) 5 | None => true end.
+  match oa_json o with Some _ => N.eqb (oa_route o) 5 && oa_creds o | None => true end.
 
 Definition mstep_ok (strict : bool) (m : mstep) : bool :=
   match ms_kind m, ms_obs m with
@@ -476,6 +477,120 @@ Definition mstep_ok (strict : bool) (m : mstep) : bool :=
 Definition holds_gen (strict : bool) (ms : list mstep) : bool := forallb (mstep_ok strict) ms.
 
 End Monitor.
+
+(* ------------------------------------------------------------------------------------------ *)
+(* the observation the MODEL predicts for a step, lineage read off its ghost state *)
+
+Definition first_rev (i : idp) (g : option nat) : option Z :=
+  match g with
+  | Some n => match find (fun r => Nat.eqb n (fst r)) (i_rev i) with Some r => Some (snd r) | None => None end
+  | None => None
+  end.
+
+Definition model_chain (st : state) (p : prec) : option chain :=
+  match pr_code p with
+  | Some cv =>
+      match find_c st cv with
+      | Some c =>
+          match cr_grant c with
+          | Some g =>
+              match nth_error (st_v st) g with
+              | Some v =>
+                  Some {| ch_login_now := pr_login p; ch_login_host := pr_host p; ch_login_email := PC.s_email (pr_s p);
+                          ch_login_redeem := true;
+                          ch_code_now := cr_at c; ch_code_email := B.s_email (cr_s c); ch_code_uri := cr_uri c;
+                          ch_sig_ok := match cr_sig c with Some _ => true | None => false end;
+                          ch_vouch_now := vr_at v; ch_vouch_email := vr_email v; ch_vouch_called := true;
+                          ch_revoked := first_rev (st_idp st) (pr_grant p) |}
+              | None => None
+              end
+          | None => None
+          end
+      | None => None
+      end
+  | None => None
+  end.
+
+Definition model_ploc (sd : sysdep) (now : Z) (host : str) (lk : P.loc_kind) : ploc :=
+  match lk with
+  | P.LkNone => PLNone
+  | P.LkSignIn slug => PLSignIn slug (callback_uri sd host) (G.dec now) true
+  | P.LkSignOut slug => PLSignOut slug (signout_uri sd host) (G.dec now) true
+  | P.LkBack uri => PLOther uri
+  | P.LkHttps | P.LkClean => PLOther []
+  end.
+
+(* [st]: the state the request was handled in; [st']: the state after it *)
+Definition model_pobs (sd : sysdep) (st st' : state) (q : P.request) (o : pout) : pobs :=
+  let oc := po_out o in
+  {| op_status := match P.oc_client oc with RespHeaders.Resp c _ => c | RespHeaders.NoResponse => 0%N end;
+     op_seen := match P.oc_backend oc with
+                | Some bv => [{| b_target := P.bk_target bv;
+                                 b_email := ReqHeaders.h_get ReqHeaders.k_xfe (P.bk_handler bv);
+                                 b_user := ReqHeaders.h_get ReqHeaders.k_xfu (P.bk_handler bv);
+                                 b_groups := ReqHeaders.h_get ReqHeaders.k_xfg (P.bk_handler bv);
+                                 b_sess_cookie := false |}]
+                | None => []
+                end;
+     op_loc := model_ploc sd (st_now st) (P.rq_host q) (P.oc_loc oc);
+     op_eff := P.visible_session (P.dp_cookie_name (sd_p sd)) (P.oc_client oc) (P.oc_session oc);
+     op_calls := P.oc_calls oc; op_idp := po_idp o;
+     op_pres := pres_session sd st q;
+     op_chain := match presented_p sd st q with Some p => model_chain st p | None => None end;
+     op_outs := st_out st' |}.
+
+Definition route_no (rest : str) : N :=
+  if str_eqb rest A.p_start then 1%N
+  else if str_eqb rest A.p_sign_in then 2%N
+  else if str_eqb rest A.p_sign_out then 3%N
+  else if str_eqb rest A.p_callback then 4%N
+  else if mem_str rest [B.p_profile; B.p_validate; B.p_redeem; B.p_refresh] then 5%N
+  else 0%N.
+
+Definition model_aloc (l : A.location) : aloc :=
+  match l with
+  | A.LNone => ALNone
+  | A.LVerbatim src => ALText (Url.hex_escape_non_ascii src)
+  | A.LClean p => ALText p
+  | A.LCode src s => ALCode src (Some s) []
+  | A.LIdP st => ALIdp (Some st)
+  end.
+
+Definition model_aobs (sd : sysdep) (st : state) (q : A.request) (o : aout) : aobs :=
+  let r := ao_resp o in
+  let rest := match presented_a sd st q with Some (_, _, rest, _) => rest | None => [] end in
+  {| oa_status := A.r_status r; oa_loc := model_aloc (A.r_loc r);
+     oa_sess := A.r_sess_ops r; oa_csrf := A.r_csrf_ops r; oa_calls := A.r_calls r;
+     oa_json := match A.r_body r with A.BJson b => Some b | _ => None end;
+     oa_route := match presented_a sd st q with Some _ => route_no rest | None => 0%N end;
+     oa_pres := match auth_pres sd st q with Some a => Some (A.to_flow (ar_s a)) | None => None end;
+     oa_uri := B.form_get A.k_redirect_uri (fst (B.compute_form (A.inner q rest)));
+     oa_creds := str_eqb (B.presented_id (A.inner q rest)) (A.d_client_id (sd_a sd)) &&
+                 str_eqb (B.presented_secret (A.inner q rest)) (A.d_client_secret (sd_a sd));
+     oa_revoked := first_rev (st_idp st) (auth_grant sd st q) |}.
+
+Section ModelTrace.
+Variable re_match : str -> str -> bool.
+Variable re_replace : str -> str -> str -> str.
+Variable lower : str -> str.
+Variable sd : sysdep.
+
+Definition model_mstep (x : state * event * out) : list mstep :=
+  let '(st, e, o) := x in
+  match e, o with
+  | EvProxy q bk lk sc, OProxy po =>
+      [{| ms_now := st_now st; ms_kind := MProxy (P.rq_host q) (P.rq_path q);
+          ms_obs := OP (model_pobs sd st (fst (SystemAll.step re_match re_replace lower sd st e)) q po) |}]
+  | EvAuth q x sc, OAuth ao => [{| ms_now := st_now st; ms_kind := MAuth; ms_obs := OA (model_aobs sd st q ao) |}]
+  | EvIdp _, OIdp => [{| ms_now := st_now st; ms_kind := MIdp; ms_obs := ONone |}]
+  | _, _ => []
+  end.
+
+(* the monitored steps of a history of the model (clock ticks are not steps) *)
+Definition model_msteps (t0 : Z) (evs : list event) : list mstep :=
+  flat_map model_mstep (snd (SystemAll.run re_match re_replace lower sd (init t0) evs)).
+
+End ModelTrace.
 
 Definition mkind_of (e : sevent) : mkind :=
   match e with SIdp _ => MIdp | SProxy q _ => MProxy (sq_host q) (sq_path q) | SAuth _ _ => MAuth end.
@@ -554,9 +669,9 @@ Definition mk_pobs (status : N) (seen : list bseen) (loc : ploc) (eff : PC.cooki
   {| op_status := status; op_seen := seen; op_loc := loc; op_eff := eff; op_calls := calls; op_idp := idp;
      op_pres := pres; op_chain := ch; op_outs := outs |}.
 Definition mk_aobs (status : N) (loc : aloc) (sess : list F.cookie_op) (csrf : list F.set_cookie) (calls : list A.call)
-    (json : option B.body) (route : N) (pres : option F.session) (uri : str) (revoked : option Z) : aobs :=
+    (json : option B.body) (route : N) (pres : option F.session) (uri : str) (creds : bool) (revoked : option Z) : aobs :=
   {| oa_status := status; oa_loc := loc; oa_sess := sess; oa_csrf := csrf; oa_calls := calls; oa_json := json;
-     oa_route := route; oa_pres := pres; oa_uri := uri; oa_revoked := revoked |}.
+     oa_route := route; oa_pres := pres; oa_uri := uri; oa_creds := creds; oa_revoked := revoked |}.
 Definition mk_step (now : Z) (e : sevent) (o : sobs) : sstep := {| sp_now := now; sp_ev := e; sp_obs := o |}.
 Definition mk_case (sd : sysdep) (lo : list (str * str)) (m : list (str * str * bool)) (rp : list (str * str * str * str))
     (t0 : Z) (steps : list sstep) : case :=
